@@ -487,7 +487,7 @@ def _empty_subset(ctx):
                   "dataset per (chunk, fold), so a prediction chunk that "
                   "happens to contain no PSM of some fold aborts the run",
                   node=r)
-    ctx.floor("C05c-size-dependent-raises", n_raises, 3)
+    ctx.floor("C05c-size-dependent-raises", n_raises, 1)
 
 
 # ------------------------------------------------------------------ d
